@@ -20,7 +20,19 @@ AREAS = {
 }
 
 
-def prompt(area, wt, n=3):
+STYLES = {
+    '': '',
+    'modern': "Flavour for this batch: *API modernisation* - prefer rewrites that replace hand-written control flow by standard-library helpers (Option/Result combinators such as map/and_then/ok_or/ok_or_else/filter/unwrap_or_else/map_or/is_some_and, `?`, `matches!`, `bool::then/then_some`, integer helpers such as checked_*/saturating_*/rem_euclid/div_euclid/abs_diff/min/max/clamp/signum/unsigned_abs, `TryFrom`/`From` conversions instead of `as` where lossless, slice helpers such as split_first/split_at/get(a..b)/strip_prefix/iter().position/any/all/rev/zip/enumerate/take/skip/sum, `(a..=b).contains`), or the reverse (expand a combinator chain into explicit matches/loops).",
+    'perf': "Flavour for this batch: *micro-optimisation and restructuring* - hoist invariants out of loops, cache a repeated accessor call in a local, merge two passes into one, split a hot function into a fast path and a cold helper, replace a table lookup by arithmetic or arithmetic by a lookup in a new private const table, reorder match arms / comparisons so that the common case comes first, replace a division+modulo pair by one division and a multiply-subtract, narrow or widen intermediate types where provably lossless, change loop shapes (while <-> loop+break <-> for over a range).",
+    'defensive': "Flavour for this batch: *defensive clean-up* - introduce named private constants for magic numbers, add private helper functions/methods and route existing code through them, turn nested conditionals into guard clauses with early returns (or the reverse), make implicit invariants explicit with `debug_assert!` on conditions that provably always hold, unify duplicated code of two sibling functions behind one generic/private helper, rename private items and locals, replace tuple returns by a small private struct (private API only).",
+}
+
+
+def prompt(area, wt, n=3, style=''):
+    return _prompt(area, wt, n).replace('Make them the kind of non-trivial edits', STYLES[style] + '\n\nMake them the kind of non-trivial edits' if style else 'Make them the kind of non-trivial edits')
+
+
+def _prompt(area, wt, n=3):
     return f"""You are helping test a static-analysis framework for FALSE ALARMS by producing realistic *behaviour-preserving refactorings* of a Rust library. Work ONLY inside the git worktree at {wt} (a checkout of the Rust crate `sqldatetime`: SQL/Oracle-style DATE, TIME, TIMESTAMP, INTERVAL types). Do NOT read or touch /verif or /repo or any other directory under /tmp. The sandbox has no network; always pass --offline to cargo (e.g. `cargo test --offline`, `cargo test --offline --all-features`).
 
 Your area: {AREAS[area]}.
@@ -47,4 +59,5 @@ At the end reply with a short summary: for each change, file/function and the ki
 if __name__ == '__main__':
     area, wt = sys.argv[1], sys.argv[2]
     n = int(sys.argv[3]) if len(sys.argv) > 3 else 3
-    print(prompt(area, wt, n))
+    style = sys.argv[4] if len(sys.argv) > 4 else ''
+    print(prompt(area, wt, n, style))
